@@ -509,6 +509,8 @@ let handle_ext toks =
       let key (k, _) = L.map int_of_z k in
       let sorted = L.stable_sort (fun a b -> compare (key a) (key b)) out in
       Some (join_or_dash ";" (L.map (fun (k, v) -> string_of_cps k ^ "=" ^ string_of_cps v) sorted))
+  | ["seqname"; out; m; n] ->
+      Some (string_of_cps (Route.sequence_filename (cps_of_string out) (zi m) (zi n)))
   | ["resolve"; kind; filename; is_stream] ->
       Some (match Route.resolve (if kind = "-" then None else Some (cps_of_string kind)) (cps_of_string filename) (is_stream = "1") with
             | Ok (key, gz) -> Printf.sprintf "OK %s %s" (string_of_cps key) (string_of_bool gz)
